@@ -87,7 +87,12 @@ def rule_R2(ck):
     RATE = sym.var("rate", "int")
     ps = I.explore(lambda: I.call(I.module_get("bk_wav", "make_wav_file"), [DATA, RATE], {}))
     where = "bk_wav::make_wav_file"
+    if len(ps) != 1 or ps[0].kind != "return":
+        return ck.incomplete(where, "make_wav_file(data, rate)", ps)
     val = ps[0].value
+    if val is None or not (is_sym(val) or isinstance(val, (bytes, bytearray)) or hasattr(val, "value")):
+        ck.violation(where, f"make_wav_file(data, rate) returns {val!r}, not the bytes of a RIFF file", construct="RIFF file is bytes")
+        return
     n = sym.length(DATA)
     fields = [("4s", b"RIFF"), ("I", sym.add(36, n)), ("4s", b"WAVE"), ("4s", b"fmt "), ("I", 16), ("H", 1), ("H", 1), ("I", RATE), ("I", RATE),
               ("H", 1), ("H", 8), ("4s", b"data"), ("I", n)]
